@@ -78,7 +78,7 @@ def run_panic(ctx, entries, floor_entries, floor_defs, rule="PANIC"):
         fk = f"{rule}|{key}"
         if exc_left.get(fk, 0) > 0 and exc[fk].get("requires"):
             # machine-checked guard: the exception only holds while the guard is still there
-            ix = P.BodyIndex(prog.bodies[s.fn])
+            ix = P.BodyIndex(prog.body(s.fn))
             if not P.REQUIRES[exc[fk]["requires"]](ix, s, exc[fk]):
                 exc_left[fk] = 0
         if exc_left.get(fk, 0) > 0:
